@@ -1362,3 +1362,70 @@ Proof.
   destruct (fold_Acc step step_Acc ops (init P b t0)) as (evs & Hl & Hb).
   rewrite Hb, Hl. simpl. rewrite app_nil_r. reflexivity.
 Qed.
+
+(** ** Part 8: statements over histories from genesis *)
+Lemma reachable_app P b t0 pre post : reachable P b t0 (pre ++ post) = run (reachable P b t0 pre) post.
+Proof. unfold reachable, run. apply fold_left_app. Qed.
+
+Lemma state_machine_lemma P b t0 pre post id c :
+  params_ok P -> escrow_empty b -> Forall wf_op (pre ++ post) ->
+  get id (st_contracts (reachable P b t0 pre)) = Some c ->
+  exists c', get id (st_contracts (reachable P b t0 (pre ++ post))) = Some c'
+    /\ (c' = c \/ (c_state c = Open /\ exists st h, st <> Open /\ c' = close c st h)).
+Proof.
+  intros HP HE W Hg. apply Forall_app in W. destruct W as [W1 W2].
+  destruct (reach_inv P b t0 pre HP HE W1) as (I & S & _). rewrite reachable_app.
+  exact (run_contract post _ I S W2 id c Hg).
+Qed.
+
+(** a contract comes into existence only open, never closed *)
+Lemma created_open_lemma s o id c : Inv s -> Strict s -> wf_op o ->
+  get id (st_contracts s) = None -> get id (st_contracts (step s o)) = Some c ->
+  c_state c = Open /\ c_closed c = 0 /\ st_height s < c_exp c /\ exists m, o = Create m /\ id = id_of m.
+Proof.
+  intros I S W Hn Hg. unfold step in Hg. destruct o as [m|who id0 secret|dts]; simpl in Hg.
+  - destruct (create s m) as [s'|] eqn:Hc; [|congruence].
+    destruct (create_open_rel s m s' I W Hc) as (dr & R). pose proof (create_lock _ _ _ Hc) as Hl.
+    rewrite (or_contracts _ _ _ _ R), get_set in Hg. destruct (eq_dec id (id_of m)) as [->|Hne]; [|congruence].
+    inversion Hg; subst c. cbn. split; [reflexivity|]. split; [reflexivity|]. split; [lia|]. exists m. auto.
+  - pose proof (claim_spec s who id0 secret I) as Hs. destruct (claim s who id0 secret) as [s'|]; [|congruence].
+    destruct Hs as (_ & c0 & Hg0 & _ & _ & R). rewrite (cr_contracts _ _ _ _ _ R), get_set in Hg.
+    destruct (eq_dec id id0) as [->|Hne]; congruence.
+  - assert (H : forall dts s, Inv s -> Strict s -> get id (st_contracts s) = None ->
+                 get id (st_contracts (fold_left begin_block dts s)) = None).
+    { clear. induction dts as [|dt dts IH]; intros s I S Hn; simpl; [exact Hn|].
+      destruct (begin_block_spec s dt I S) as (I1 & S1 & _ & _ & Hc). apply IH; [exact I1|exact S1|].
+      rewrite Hc, Hn. reflexivity. }
+    rewrite (H dts s I S Hn) in Hg. discriminate.
+Qed.
+
+Lemma claim_htlt_win s id c s' d x cs : c_amount c = (d, x) :: cs -> claim_htlt s id c = Some s' ->
+  st_win s' = match c_dir c with Incoming => set d (sup_of (st_win s) d + x) (st_win s) | _ => st_win s end.
+Proof.
+  intros Ham. unfold claim_htlt. rewrite Ham. destruct (c_dir c); [discriminate| |].
+  - destruct (with_asset s d (dec_incoming x)) as [s1|] eqn:H1; [|discriminate].
+    destruct (with_asset_Some _ _ _ _ H1) as (? & ? & ? & _ & _ & _ & ->).
+    match goal with |- context [with_asset ?t d (inc_current x)] => destruct (with_asset t d (inc_current x)) as [s2|] eqn:H2; [|discriminate] end.
+    destruct (with_asset_Some _ _ _ _ H2) as (? & ? & ? & _ & _ & _ & ->).
+    unfold pay_out. destruct (blocked (c_to c)); [discriminate|]. sproj.
+    match goal with |- context [send_coins ?l ESC (c_to c) ?cs] => destruct (send_coins l ESC (c_to c) cs); [|discriminate] end.
+    intros H; inversion H; subst s'. reflexivity.
+  - destruct (with_asset s d (dec_outgoing x)) as [s1|] eqn:H1; [|discriminate].
+    destruct (with_asset_Some _ _ _ _ H1) as (? & ? & ? & _ & _ & _ & ->).
+    match goal with |- context [with_asset ?t d (dec_current x)] => destruct (with_asset t d (dec_current x)) as [s2|] eqn:H2; [|discriminate] end.
+    destruct (with_asset_Some _ _ _ _ H2) as (? & ? & ? & _ & _ & _ & ->).
+    unfold burn. sproj.
+    match goal with |- context [debit_coins ?l ESC ?cs] => destruct (debit_coins l ESC cs); [|discriminate] end.
+    intros H; inversion H; subst s'. reflexivity.
+Qed.
+
+(** the window ghost follows the reset rule of UpdateTimeBasedSupplyLimits *)
+Lemma window_reset_rule el s p a : get (ap_denom p) (st_assets s) = Some a ->
+  let keep := ap_tl p && (as_el a + el <? ap_period p) in
+  sup_of (st_win (tick_asset el s p)) (ap_denom p) = (if keep then sup_of (st_win s) (ap_denom p) else 0)
+  /\ option_map as_el (get (ap_denom p) (st_assets (tick_asset el s p))) = Some (if keep then as_el a + el else 0).
+Proof.
+  intros Ha. unfold tick_asset. cbv zeta. rewrite Ha. sproj. rewrite get_set_same.
+  destruct (ap_tl p && (as_el a + el <? ap_period p)); simpl; split; try reflexivity.
+  rewrite sup_of_set, Z.eqb_refl. reflexivity.
+Qed.
